@@ -118,6 +118,18 @@ def gen_session(r, tier, force=None):
         mid.append([(r.choice(['down', 'up', 'put']), None)] if r.random() < 0.5 else [('put', 'e')])
         mid = [[('put', 'o')] if st[0] == ('put', None) else st for st in mid]
         steps = steps[:r.randint(0, 3)] + mid + steps[:r.randint(0, 2)]
+    if force == 'half' or (force is None and r.random() < 0.05):
+        # exactly half of the matched lines selected, then toggle-all: the selection changes, its size does not
+        k = r.choice([1, 2, 2, 3])
+        lines = r.sample(['alpha', 'bravo', 'charlie', 'delta', 'echo', 'foxtrot', 'golf', 'hotel'], 2 * k)
+        opts['multi'], opts['hlines'] = 1000, 0
+        opts['rows'] = max(opts['rows'], 12)
+        pick = []
+        for i in range(k):
+            pick.append([('toggle', None), (r.choice(['up', 'up', 'down']) if i < k - 1 else 'first', None)])
+        # picks may land twice on the same line: select-all + deselect some is the robust way to reach exactly k
+        pick = [[('deselect-all', None)]] + [[('pos', str(i + 1)), ('select', None)] for i in r.sample(range(2 * k), k)]
+        steps = steps[:r.randint(0, 2)] + [[('clear-query', None)]] + pick + [[('toggle-all', None)]] + ([[('toggle-all', None)]] if r.random() < 0.4 else [])
     if force == 'hdr' or (force is None and r.random() < 0.05):
         # --header-lines=N reserves N rows whatever the input holds; with --header-first they sit next to the edge
         opts['hlines'] = r.choice([1, 2, 3])
@@ -255,7 +267,7 @@ def drv_screens(tier, seed, ctx):
     from vcheck import evaluate
     n = 48 if tier == 'quick' else 700
     r = random.Random(seed * 15485863 + 3)
-    scs = [gen_session(r, tier, force='input' if i < 6 else 'fit' if i < 12 else 'prompt' if i < 18 else 'hdr' if i < 23 else None) for i in range(n)]
+    scs = [gen_session(r, tier, force='input' if i < 6 else 'fit' if i < 12 else 'prompt' if i < 18 else 'hdr' if i < 23 else 'half' if i < 28 else None) for i in range(n)]
     notes = []
 
     def work(sc):
